@@ -404,4 +404,51 @@ theorem hashCode_fn_bridge (pre body after : List Stmt)
   rw [retVal_some, this]
   rfl
 
+/-! ### hash.ToInt / hash.ToLong (used by HashAddr) -/
+
+def bufArrs (bs : Bytes) : Arrays := fun n => if n = 0 then bs.map Int.ofNat else []
+
+theorem norm_i64_add (x y : Int) : norm .i64 (norm .i64 x + norm .i64 y) = norm .i64 (x + y) := by
+  simp only [norm, Ty.half, Ty.modulus]; omega
+theorem norm_i32_add (x y : Int) : norm .i32 (norm .i32 x + norm .i32 y) = norm .i32 (x + y) := by
+  simp only [norm, Ty.half, Ty.modulus]; omega
+theorem norm_i32_idem (x : Int) : norm .i32 (norm .i32 x) = norm .i32 x := by
+  simp only [norm, Ty.half, Ty.modulus]; omega
+theorem norm_i64_idem (x : Int) : norm .i64 (norm .i64 x) = norm .i64 x := by
+  simp only [norm, Ty.half, Ty.modulus]; omega
+theorem norm_i32_byte (a : Nat) (h : a < 256) : norm .i32 (a : Int) = a := by
+  simp only [norm, Ty.half, Ty.modulus]; omega
+theorem norm_i64_byte (a : Nat) (h : a < 256) : norm .i64 (a : Int) = a := by
+  simp only [norm, Ty.half, Ty.modulus]; omega
+theorem norm_i32_wrap (x : Int) : norm .i32 x = Hash.wrap32 x := rfl
+theorem norm_i64_wrap (x : Int) : norm .i64 x = Hash.wrap64 x := rfl
+
+theorem w32_l (x y : Int) : Hash.wrap32 (Hash.wrap32 x + y) = Hash.wrap32 (x + y) := by unfold Hash.wrap32; omega
+theorem w32_r (x y : Int) : Hash.wrap32 (x + Hash.wrap32 y) = Hash.wrap32 (x + y) := by unfold Hash.wrap32; omega
+theorem w32_i (x : Int) : Hash.wrap32 (Hash.wrap32 x) = Hash.wrap32 x := by unfold Hash.wrap32; omega
+theorem w64_l (x y : Int) : Hash.wrap64 (Hash.wrap64 x + y) = Hash.wrap64 (x + y) := by unfold Hash.wrap64; omega
+theorem w64_r (x y : Int) : Hash.wrap64 (x + Hash.wrap64 y) = Hash.wrap64 (x + y) := by unfold Hash.wrap64; omega
+theorem w64_i (x : Int) : Hash.wrap64 (Hash.wrap64 x) = Hash.wrap64 x := by unfold Hash.wrap64; omega
+
+theorem toInt_bridge (a b c d : Nat) (rest : Bytes) (ha : a < 256) (hb : b < 256) (hc : c < 256) (hd : d < 256) :
+    some (call (bufArrs (a :: b :: c :: d :: rest)) GoModel.fn_ToInt []) = Hash.toInt (a :: b :: c :: d :: rest) := by
+  simp only [call, GoModel.fn_ToInt, bindArgs, runRet, eval, upd, bufArrs]
+  simp only [if_true, Nat.reduceEqDiff, if_false, Int.reduceToNat, List.map_cons, List.getD_cons_zero, List.getD_cons_succ]
+  rw [retVal_some]
+  simp only [evalOp, Int.ofNat_eq_natCast, norm_i32_byte _ ha, norm_i32_byte _ hb, norm_i32_byte _ hc, norm_i32_byte _ hd,
+    Int.reduceToNat, Int.reducePow, norm_i32_add, norm_i32_idem, Int.mul_one, Hash.toInt, norm_i32_wrap]
+  simp only [w32_l, w32_r, w32_i]
+
+theorem toLong_bridge (a b c d e f g h : Nat) (rest : Bytes) (ha : a < 256) (hb : b < 256) (hc : c < 256) (hd : d < 256)
+    (he : e < 256) (hf : f < 256) (hg : g < 256) (hh : h < 256) :
+    some (call (bufArrs (a :: b :: c :: d :: e :: f :: g :: h :: rest)) GoModel.fn_ToLong [])
+      = Hash.toLong (a :: b :: c :: d :: e :: f :: g :: h :: rest) := by
+  simp only [call, GoModel.fn_ToLong, bindArgs, runRet, eval, upd, bufArrs]
+  simp only [if_true, Nat.reduceEqDiff, if_false, Int.reduceToNat, List.map_cons, List.getD_cons_zero, List.getD_cons_succ]
+  rw [retVal_some]
+  simp only [evalOp, Int.ofNat_eq_natCast, norm_i64_byte _ ha, norm_i64_byte _ hb, norm_i64_byte _ hc, norm_i64_byte _ hd,
+    norm_i64_byte _ he, norm_i64_byte _ hf, norm_i64_byte _ hg, norm_i64_byte _ hh,
+    Int.reduceToNat, Int.reducePow, norm_i64_add, norm_i64_idem, Int.mul_one, Hash.toLong, norm_i64_wrap]
+  simp only [w64_l, w64_r, w64_i]
+
 end GoBridge
